@@ -5,7 +5,7 @@ use std::cell::RefCell;
 use sciparse::{
     core::view::View,
     dataplane_path::standard::{
-        routing::{AdvanceError, AdvanceValidator, EgressValidateResult, IngressAdvanceAction, IngressValidateResult},
+        routing::{AdvanceError, AdvanceValidator, EgressValidateResult, HopMacValidator, IngressAdvanceAction, IngressValidateResult},
         view::{HopFieldView, InfoFieldView, StandardPathView},
     },
 };
@@ -157,6 +157,95 @@ pub fn apply(op: Op, buf: &mut [u8], script: Script) -> CallOut {
     out
 }
 
+/// HopMacValidator with the key of one AS, wrapped so that every verdict is also computed
+/// independently (AES-CMAC via the aes/cmac crates over the bytes the validator is shown).
+pub struct MacCheck {
+    pub key: [u8; 16],
+    pub cur_idx: usize,
+    pub calls: RefCell<Vec<Value>>,
+    /// (hop index, independent verdict, sciparse verdict)
+    pub verdicts: RefCell<Vec<(usize, bool, bool)>>,
+}
+impl AdvanceValidator for &MacCheck {
+    type Error = String;
+    fn validate_hop(&self, hop_index: usize, hop: &HopFieldView, info: &InfoFieldView, start: bool, end: bool) -> Result<(), String> {
+        self.calls.borrow_mut().push(json!({"f": "hop", "idx": hop_index, "sid": info.segment_id(), "start": start, "end": end}));
+        let real = HopMacValidator { key: self.key }.validate_hop(hop_index, hop, info, start, end).is_ok();
+        let indep = crate::c11::hop_mac(&self.key, info.segment_id(), info.timestamp(), hop.exp_time(), hop.cons_ingress(), hop.cons_egress()) == hop.mac().0;
+        self.verdicts.borrow_mut().push((hop_index, indep, real));
+        if real { Ok(()) } else { Err("mac".into()) }
+    }
+    fn validate_segment_change(&self, hop_index: usize, ch: &HopFieldView, ci: &InfoFieldView, nh: &HopFieldView, ni: &InfoFieldView) -> Result<(), String> {
+        self.calls.borrow_mut().push(json!({"f": "seg", "idx": hop_index, "sid": ci.segment_id(), "start": false, "end": false}));
+        HopMacValidator { key: self.key }.validate_segment_change(hop_index, ch, ci, nh, ni).map_err(|e| format!("{e:?}"))
+    }
+}
+
+/// One advance call with the real HopMacValidator of the AS owning `key`.
+/// Returns the call result, the independent verdicts as a script, and whether sciparse's verdicts
+/// all equal the independent ones.
+pub fn apply_mac(op: Op, buf: &mut [u8], key: [u8; 16]) -> (CallOut, Script, bool) {
+    let cur_idx = (buf[0] & 0x3f) as usize;
+    let mc = MacCheck { key, cur_idx, calls: RefCell::new(vec![]), verdicts: RefCell::new(vec![]) };
+    let mut out = CallOut { k: "err".into(), cls: String::new(), act: "none".into(), eif: 0, iif: 0, alert: false, calls: vec![], msg: String::new() };
+    let r = catch(|| {
+        let (v, _) = StandardPathView::try_from_mut_slice(buf).expect("constructor accepted this buffer before");
+        match op {
+            Op::Rev => unreachable!("apply_mac is for advance calls"),
+            Op::IngInt | Op::IngExt => match v.advance_ingress_with_validator(&mc, op == Op::IngInt) {
+                Err(e) => ("err".to_string(), err_cls(&e).to_string(), "none".to_string(), 0u16, 0u16, false),
+                Ok(res) => {
+                    let (k, o) = match res {
+                        IngressValidateResult::Ok(o) => ("ok", o),
+                        IngressValidateResult::ValidationFailed(o, _) => ("vfail", o),
+                    };
+                    let (act, eif) = match o.action {
+                        IngressAdvanceAction::ContinueEgress { egress_if } => ("egress", egress_if),
+                        IngressAdvanceAction::ForwardLocal => ("local", 0),
+                    };
+                    (k.to_string(), "ok".to_string(), act.to_string(), eif, o.ingress_interface, o.scmp_alert)
+                }
+            },
+            Op::Egr => match v.advance_egress_with_validator(&mc) {
+                Err(e) => ("err".to_string(), err_cls(&e).to_string(), "none".to_string(), 0, 0, false),
+                Ok(res) => {
+                    let (k, o) = match res {
+                        EgressValidateResult::Ok(o) => ("ok", o),
+                        EgressValidateResult::ValidationFailed(o, _) => ("vfail", o),
+                    };
+                    (k.to_string(), "ok".to_string(), "egress".to_string(), o.egress_interface, 0, o.scmp_alert)
+                }
+            },
+        }
+    });
+    match r {
+        Ok((k, cls, act, eif, iif, alert)) => {
+            out.k = k;
+            out.cls = cls;
+            out.act = act;
+            out.eif = eif;
+            out.iif = iif;
+            out.alert = alert;
+        }
+        Err(msg) => {
+            out.k = "panic".into();
+            out.msg = msg;
+        }
+    }
+    let mut script = Script::ACCEPT;
+    let mut agree = true;
+    for (idx, indep, real) in mc.verdicts.borrow().iter() {
+        if *idx == cur_idx {
+            script.cur = *indep;
+        } else {
+            script.nxt = *indep;
+        }
+        agree &= indep == real;
+    }
+    out.calls = mc.calls.into_inner();
+    (out, script, agree)
+}
+
 /// The same call through the validator-less entry points (advance_ingress / advance_egress).
 /// Returns (class, bytes after).
 pub fn apply_plain(op: Op, buf: &mut [u8]) -> String {
@@ -194,7 +283,7 @@ fn shape_class(h: &HdrC) -> String {
 /// Per-call P-monitors of C11/C12 on the real bytes before/after one call.
 pub fn call_monitors(op: Op, before: &[u8], after: &[u8], out: &CallOut) -> Vec<Value> {
     let mut pvs = Vec::new();
-    let hb = HdrC::parse(before).expect("harness wrote this buffer");
+    let hb = HdrC::parse_or_meta(before);
     let cls = shape_class(&hb);
     let desc = || format!("seg lens {:?} ci {} ch {} (meta {})", hb.sl, hb.ci, hb.ch, hex(&before[..4]));
     if out.k == "panic" {
